@@ -419,3 +419,59 @@ def sf_isprim_or_blob(ev, v):
 
 
 SPECFUNCS = {k[3:]: v for k, v in list(globals().items()) if k.startswith('sf_')}
+
+
+# ---------------------------------------------------------------- environment model (C15): readers and constructors
+def _envsf():
+    from . import envmodel as E
+    from .envmodel import VContent
+
+    def arr(key):
+        return lambda ev, p: ev.st.ghost['env.' + key].z
+
+    def rd(key, wrap):
+        def f(ev, p):
+            return wrap(z3.Select(ev.st.ghost['env.' + key].z, p.z))
+        return f
+    TEMPLATE = "BISTURI_PACKET_COOKIE = '\x00'\n"
+
+    def sha2(p, u):
+        return E.sha1hex(E.hupd(E.hupd(E.hempty, E.utf8(p)), E.utf8(u)))
+
+    def cookie_line(k):
+        return z3.Function('fstring1', T.S, T.Val, T.S)(z3.StringVal(TEMPLATE), T.Val.VS(k))
+
+    def rendered(i, k, p, u):
+        return E.capp(E.capp(E.capp(E.capp(E.cempty, i), k), p), u)
+    hi = z3.Function('honest_import_code', E.Content, T.S)
+    hp = z3.Function('honest_pack_code', E.Content, T.S)
+    hu = z3.Function('honest_unpack_code', E.Content, T.S)
+
+    def honest(c):
+        return c == rendered(hi(c), cookie_line(sha2(hp(c), hu(c))), hp(c), hu(c))
+    codefn = z3.Function('codefn', T.S, T.S, T.I)
+    d = {
+        'fs_exists': rd('fs_exists', VBool), 'fs_content': rd('fs_content', VContent), 'fs_stamp': rd('fs_stamp', VInt),
+        'pyc_exists': rd('pyc_exists', VBool), 'pyc_code': rd('pyc_code', VContent), 'pyc_stamp': rd('pyc_stamp', VInt),
+        'mod_loaded': rd('mod_loaded', VBool),
+        'mod_ref': lambda ev, p: VRef(z3.Select(ev.st.ghost['env.mod_ref'].z, p.z), 'Module'),
+        'rendered': lambda ev, i, k, p, u: VContent(rendered(i.z, k.z, p.z, u.z)),
+        'cookie_line': lambda ev, k: VStr(cookie_line(k.z)),
+        'cookie_of': lambda ev, p, u: VStr(sha2(p.z, u.z)),
+        'honest': lambda ev, c: VBool(honest(c.z)),
+        'honest_pack_code': lambda ev, c: VStr(hp(c.z)), 'honest_unpack_code': lambda ev, c: VStr(hu(c.z)),
+        'honest_import_code': lambda ev, c: VStr(hi(c.z)),
+        'exec_outcome': lambda ev, c: VInt(E.exec_outcome(c.z)),
+        'defines': lambda ev, c, n: VBool(E.defines(c.z, n.z)),
+        'defval': lambda ev, c, n: VDyn(E.defval(c.z, n.z)),
+        'codefn': lambda ev, kind, code: VDyn(T.Val.VF(codefn(kind.z, code.z))),
+        'generic_pack': lambda ev: VDyn(T.Val.VF(z3.Int('GENERIC_PACK_IMPL'))),
+        'generic_unpack': lambda ev: VDyn(T.Val.VF(z3.Int('GENERIC_UNPACK_IMPL'))),
+        'dont_write_bytecode': lambda ev: ev.st.ghost['env.dont_write_bytecode'],
+        'cachepath': lambda ev, p: VStr(E.cachepath(p.z)),
+        'isfunction': lambda ev, v: VBool(T.Val.is_VF(to_val(v))),
+    }
+    return d
+
+
+SPECFUNCS.update(_envsf())
